@@ -257,6 +257,19 @@ def hosts(rule: str):
         fnodes.append(oh.make_node("Identity", [o_], ["q"]))
         fn = oh.make_function("local", "Fn", ["p"], ["q"], fnodes, [oh.make_opsetid("", 18)])
         finish("instance inside a model-local function", [oh.make_node("Fn", ["x"], ["y"], domain="local")], [], ["y"], 1, functions=[fn], extra=[("local", 1)])
+        # the same pattern in two model-local functions, and in the main graph plus a function (what one application adds to the model,
+        # e.g. an opset import, must reach every function that needs it)
+        f2nodes, f2inits = [], []
+        o2, _ = instance(rule, "p", "f1", f2nodes, f2inits)
+        f2nodes.append(oh.make_node("Abs", [o2], ["q"]))
+        fn2 = oh.make_function("local", "Fn2", ["p"], ["q"], f2nodes, [oh.make_opsetid("", 18)])
+        finish("instances inside two model-local functions",
+               [oh.make_node("Fn", ["x"], ["y1"], domain="local"), oh.make_node("Fn2", ["y1"], ["y"], domain="local")], [], ["y"], 2,
+               functions=[fn, fn2], extra=[("local", 1)])
+        mnodes, minits = [], []
+        om, _ = instance(rule, "x", "m0", mnodes, minits)
+        mnodes.append(oh.make_node("Fn", [om], ["y"], domain="local"))
+        finish("instance in the main graph and in a model-local function", mnodes, minits, ["y"], 2, functions=[fn], extra=[("local", 1)])
     # initializer name clash (replacement creates an initializer named 'three')
     if rule == "add_const_reassoc":
         nodes, inits = [], [nh.from_array(np.array(7.0, dtype=np.float32), "three")]
